@@ -25,3 +25,15 @@ func (p *Parser) TokensPulled() int { return len(p.token) }
 
 // Cursor is the index of the last token handed out by next (-1 before the first).
 func (p *Parser) Cursor() int { return p.pos }
+
+// LexerDone reports whether the lexing goroutine has finished sending (its token channel is closed).
+// After Parse has returned this must hold: Parse drains the channel before it returns, so no lexing
+// is left running in the background.  (A token still waiting in the channel is consumed by the probe.)
+func (p *Parser) LexerDone() bool {
+	select {
+	case _, ok := <-p.lex.items:
+		return !ok
+	default:
+		return false
+	}
+}
